@@ -75,6 +75,10 @@ def st_case(draw):
             return qgen.mk('%s + NR' % f['py'], None, 'int'), 'int'
         if form == 5:
             return qgen.mk('NR', None, 'int'), 'int'
+        if kind in ('intstr', 'padstr', 'int', 'bigint') and draw(st.integers(0, 2)) == 0:
+            # the lower-case builtins keep their meaning inside an aggregate argument (several arguments / an iterable)
+            x = 'int(%s)' % f['py']
+            return qgen.mk(draw(st.sampled_from(['sum([%s, 1])', 'max(%s, 3)', 'min([%s, 5])', 'sum((%s, NR))', 'max([%s])'])) % x, None, 'int'), 'int'
         return f, kind
 
     group = None
